@@ -207,7 +207,7 @@ func registerAll() {
 func TestPropGrammar(t *testing.T) {
 	registerAll()
 	alpha := []string{"0", "1", "5", "9", "-", "+", ".", "e", "E", "x"}
-	maxLen := ev.N(6, 7)
+	maxLen := ev.N(6, 8)
 	ev.KeepFirst("grammar")
 	var n, nt, bad int64
 	gen.Shortlex(alpha, maxLen, ev.Mine, func(b []byte, _ []int) {
@@ -240,7 +240,7 @@ func TestPropPairs(t *testing.T) {
 	registerAll()
 	alpha := []string{"0", "1", "9", "-", ".", "e", "+"}
 	var set []string
-	gen.Shortlex(alpha, ev.N(4, 5), func(int) bool { return true }, func(b []byte, _ []int) {
+	gen.Shortlex(alpha, ev.N(4, 6), func(int) bool { return true }, func(b []byte, _ []int) {
 		if dec.Parse(string(b)) != nil {
 			set = append(set, string(b))
 		}
@@ -273,7 +273,7 @@ func TestPropPairs(t *testing.T) {
 	}
 	ev.Count("pairs", n)
 	ev.NonTrivialEnum("pairs", nt)
-	ev.Exhaustive("pairs", fmt.Sprintf("all ordered pairs of the %d JSON numbers of length <= %d over %v", len(set), ev.N(4, 5), alpha))
+	ev.Exhaustive("pairs", fmt.Sprintf("all ordered pairs of the %d JSON numbers of length <= %d over %v", len(set), ev.N(4, 6), alpha))
 	if bad > 0 {
 		t.Errorf("VIOLATION-CANDIDATE pairs: %d pairs", bad)
 	}
